@@ -4,6 +4,7 @@
 From Coq Require Import Extraction ExtrOcamlBasic ExtrOcamlString.
 From QSX Require Import Base.QSum LP.ILP LP.Cert LP.User LP.OptTest LP.Driver.
 (* one Require line per area may be added below *)
+From QSX Require Import Store.Spec.
 
 Extraction Language OCaml.
 Extraction "model.ml"
@@ -13,4 +14,5 @@ Extraction "model.ml"
   opt_test infeas_test wf_logicals
   exact_solver_gen exact_solver
   (* add names below, one line per area *)
+  sstep pstep dump_lines to_ulp empty_prob valid_args get_h
   .
